@@ -266,7 +266,19 @@ func (w WALBatch) replay(fs *fileStore) error {
 	// the header may already be ahead of the log (CREATE TABLE consumes LSNs
 	// without logging); replay must never hand out older LSNs again
 	headerNextLSN := fs._nextLSN
+	// a crash inside a flush can leave pages on disk that are newer than the
+	// header: pages beyond the header's allocation frontier, and rows whose
+	// ids are beyond its row id counter. never allocate over the former or
+	// hand out the latter again.
+	if info, err := fs.file.Stat(); err == nil {
+		if size := uint64(info.Size()); size > fs.nextFreeOffset {
+			fs.nextFreeOffset = (size + pageSize - 1) / pageSize * pageSize
+		}
+	}
 	for _, row := range w {
+		if row.WALOp == OpInsert && row.cellID > fs.lastKey {
+			fs.lastKey = row.cellID
+		}
 		fs._nextLSN = row.LSN
 		node, err := fs.fetch(row.pageID)
 		if err != nil {
